@@ -841,7 +841,9 @@ def run_asmprog(case, res, prop):
                     sim.step()
                     k += 1
             except Exception as e:
-                outs[(mode, dc is not None)] = ("EXC", repr(e)[:120])
+                # both configurations must fail at the same instruction; the message text (which names the
+                # block-aligned address when a cache fill faults) is not part of "registers, output, exit code"
+                outs[(mode, dc is not None)] = ("EXC", type(e).__name__, getattr(e, "address", None), real_regs(sim), sim.state.output)
                 continue
             outs[(mode, dc is not None)] = (real_regs(sim), sim.state.output, sim.state.exit_code, pipe.mem_image(sim), bool(sim.is_done()))
     res.count("asm_programs_compared")
